@@ -643,7 +643,8 @@ std::string sqf::parser::preprocessor::impl_default::instance::handle_macro(::sq
         size_t rb_counter = 0;
         size_t cb_counter = 0;
         size_t eb_counter = 0;
-        size_t lastargstart = local_fileinfo.off;
+        // The text of the current argument as the reader delivers it (comments and line continuations removed)
+        std::string argtext;
         bool exit = false;
         char c;
         bool in_string = false;
@@ -655,8 +656,10 @@ std::string sqf::parser::preprocessor::impl_default::instance::handle_macro(::sq
                 {
                     in_string = false;
                 }
+                argtext.push_back(c);
                 continue;
             }
+            bool is_separator = false;
             switch (c)
             {
                 case '[': eb_counter++; break;
@@ -670,12 +673,13 @@ std::string sqf::parser::preprocessor::impl_default::instance::handle_macro(::sq
                 case ',':
                 if (rb_counter == 0 && eb_counter == 0 && cb_counter == 0)
                 {
-                    local_fileinfo.move_back();
-                    if (local_fileinfo.off - lastargstart > 0)
+                    is_separator = true;
+                    if (!argtext.empty())
                     {
-                        preprocessorfileinfo copy = local_fileinfo;
-                        copy.off = lastargstart;
-                        auto handled_param = handle_arg(runtime, copy, original_fileinfo, local_fileinfo.off, param_map);
+                        preprocessorfileinfo argfile(local_fileinfo.to_diag_info());
+                        argfile.content = argtext;
+                        argfile.line = local_fileinfo.line;
+                        auto handled_param = handle_arg(runtime, argfile, original_fileinfo, argtext.length(), param_map);
                         params.emplace_back(std::move(handled_param));
 #ifdef DF__SQF_PREPROC__TRACE_MACRO_RESOLVE
                         std::cout << "\x1B[33m[PREPROCESSOR-RS]\033[0m" <<
@@ -695,10 +699,13 @@ std::string sqf::parser::preprocessor::impl_default::instance::handle_macro(::sq
                         params.emplace_back("");
                         log(err::EmptyArgument(original_fileinfo.to_diag_info()));
                     }
-                    local_fileinfo.next();
-                    lastargstart = local_fileinfo.off;
+                    argtext.clear();
                 }
                 break;
+            }
+            if (!is_separator)
+            {
+                argtext.push_back(c);
             }
         }
     }
